@@ -23,7 +23,9 @@ def units(tier, seed):
            if e1.is_framing(c) and c.__name__ in DECLARED and c.__module__ in MODULES]
     for u in hdr:
         u.name = 'header/' + u.name
-    return list(us) + hdr + [hello.unit(('K6', 'K3'), 'K6+K3'), hello.decode_unit()] + foundation.units(tier, seed)
+    from checks import tables as _tables
+    _table_units = _tables.units(_tables.TLS)
+    return list(us) + hdr + [hello.unit(('K6', 'K3'), 'K6+K3'), hello.decode_unit()] + foundation.units(tier, seed) + _table_units
 
 
 FINDING_REPLAYS = regions.finding_replays('C06')
